@@ -90,6 +90,30 @@ def run(res):
     expstage.report_disagreement(res, name, dis, failing > 0 or hist_bad > 0)
     if not dis and not failing and not hist_bad:
         res.discharged.append(name)
+    # the ids: the theorems of the second half of Props/C14.v are about Parser.v; its tie is the front-end stage
+    # (real parser vs extracted model, whole tree with node ids, and the expansion printed from the MODEL's tree)
+    import parsestage
+    name2 = "correspondence:front-end(parsed tree with node ids, expansion from the model's own parse)"
+    res.obligations.append(name2)
+    precs = parsestage.run_stage(res, res.tier, res.seed)
+    pdis = [(r, parsestage.agree(r)) for r in precs if parsestage.agree(r)]
+    dup_ids = 0
+    for r in precs:
+        if r.real_status == "ok":
+            import re as _re
+            ids = [int(x) for x in _re.findall(r"\((?:simple|string|cmp|range|regex|like|wild|closure|struct|enum|tuple|slice|set|map) (\d+) ", r.real_tree)]
+            if len(ids) != len(set(ids)):
+                dup_ids += 1
+                if dup_ids <= 2:
+                    res.violation("failing-input", "two nodes of one parsed pattern carry the same id", {"invocation": r.text, "ids": ids[:40]})
+    res.streams["front-end"] = {"cases": len(precs), "accepted": sum(1 for r in precs if r.real_status == "ok"),
+                                "disagreements": len(pdis), "trees_with_duplicate_ids": dup_ids}
+    if pdis and not (failing or hist_bad or dup_ids):
+        r, why = pdis[0]
+        res.violation("no-failing-input-found", "correspondence front-end no longer checks: the real parser/expander and the model differ on %d of %d "
+                      "token streams" % (len(pdis), len(precs)), {"first_disagreement": {"invocation": r.text, "difference": why}})
+    if not pdis and not dup_ids:
+        res.discharged.append(name2)
     st = res.streams["expander"]
     res.coverage.update({
         "evaluations": st["cases"], "distinct_nontrivial": nontrivial,
